@@ -386,6 +386,7 @@ pub fn run_seed(prop: &str, seed: u64, thorough: bool, record: Option<&str>) -> 
     let n_events = sw.n_events;
     let (big_ids, long_names) = (sw.big_ids, sw.long_names);
     let huge = sw.huge;
+    let (mega, broad) = (sw.mega_burst, sw.broad);
     let mut gen = Gen::new(prop, sw);
     gen.thorough = thorough;
     let mut runner = match Runner::new(prop, seed, n_users, n_enc) {
@@ -416,6 +417,12 @@ pub fn run_seed(prop: &str, seed: u64, thorough: bool, record: Option<&str>) -> 
     }
     if huge {
         runner.world.stats.probe("swarm-thousands-of-rights");
+    }
+    if mega {
+        runner.world.stats.probe("swarm-more-than-127-revisions");
+    }
+    if broad {
+        runner.world.stats.probe("swarm-hundreds-of-components");
     }
     for u in 0..n_users {
         if !huge && rng.pct(85) {
@@ -904,7 +911,7 @@ pub fn scale_probe(w: &mut World, n: usize) {
         Err(p) => w.fail(Class::Hostile, "panic/structure/scale-probe", p),
         Ok((Some(t1), Some(t4))) => {
             w.outcomes.push("scale-probe:ok".into());
-            if t4 > 11 * t1 + 30_000_000 {
+            if t4 > 11 * t1 + 100_000_000 {
                 w.fail(
                     Class::Hostile,
                     "super-linear-time/structure",
